@@ -97,7 +97,7 @@ class Gen:
         if not self.chance(self.p["desc"]):
             return None
         return self.draw(st.one_of(st.sampled_from(TEXTS), st.text(
-            st.characters(blacklist_categories=("Cs", "Cc"), blacklist_characters="\r"), max_size=12)))
+            st.characters(blacklist_categories=("Cs", "Cc"), blacklist_characters="\r\ufffe\uffff"), max_size=12)))   # XML 1.0 Char
 
     # ---- criteria ----------------------------------------------------------------------------------------
     def literal_for(self, av: Avail, cal_sel):
